@@ -3,6 +3,8 @@
 import BioCantor.Driver.Proto
 import BioCantor.Driver.Loc
 import BioCantor.Model.Validate
+import BioCantor.Model.Sequence
+import BioCantor.Gen.Kernels
 namespace BioCantor.Driver.Validate
 open BioCantor BioCantor.Proto BioCantor.Model BioCantor.Model.Validate
 
@@ -51,7 +53,7 @@ def showOptStr : Option String → String
 def showOptStrand : Option Strand → String
   | some s => strandSym s | none => "_"
 
-def pPLoc : P (Option PLoc) := do
+def pPLoc : P (Option Validate.PLoc) := do
   match (← tok) with
   | "_" => pure none
   | "E" => pure (some ⟨true, .plus, 0, 0, none, none⟩)
@@ -103,7 +105,102 @@ def alphabetOf (name : String) : P (List Char) :=
   | some a => pure a
   | none => throw s!"alphabet? {name}"
 
+def pQual : P QualShape := do
+  match (← tok) with
+  | "_" => pure .none
+  | "L0" => pure (.notDict false)
+  | "L1" => pure (.notDict true)
+  | "D" => do let bs ← pList pBool; pure (.dict bs)
+  | t => throw s!"qual? {t}"
+
+def pChild (withPrimary : Bool) : P Child := do
+  let s ← pInt; let e ← pInt; let g ← pNat
+  let p ← (if withPrimary then pBool else pure false)
+  pure ⟨s, e, g, p⟩
+
+def pTilde : P (List Char) := do let t ← tok; pure (t.toList.drop 1)
+
+def popOf : String → POp
+  | "fsi" => .fsi | "mkpar" => .mkpar | "append" => .append | "locrel" => .locrel | _ => .binary
+
+def appendGenome : List Char := "ACGTTGCAAGTC".toList
+def ntStrict : List Char := "NT_STRICT".toList
+
+/-- the piece `impl_validate._sub_sequence` builds: text read on the piece's strand (plus reading for `.`) -/
+def pieceOf (P : List Char) (st : Strand) (a b : Nat) : R Sq.SeqObj := do
+  let d ← (if st = .minus then Sq.extractSingle P ntStrict (a, b) .minus else pure (Sq.sliceP P (a, b)))
+  pure ⟨d, some ⟨none, some (.single (a, b) st)⟩⟩
+
+def showPyExc : GenP.PyExc → String
+  | .ValueError => "ValueError" | .TypeError => "TypeError" | .KeyError => "KeyError"
+  | .InvalidPositionException => "InvalidPosition" | .InvalidStrandException => "InvalidStrand"
+  | .UnsupportedOperationException => "UnsupportedOperation" | .EmptyLocationException => "EmptyLocation"
+  | .LocationException => "Location" | .NotImplementedError => "NotImplemented"
+  | .MismatchedFrameException => "MismatchedFrame" | .InvalidCDSIntervalError => "InvalidCDSInterval"
+
+def showPyR {α} (sh : α → String) : GenP.PyR α → String
+  | .ok a => "ok " ++ sh a
+  | .error .KeyError => "err! KeyError"
+  | .error e => "err " ++ showPyExc e
+
 def ops : List (String × Op) := [
+  ("mkvar", do
+      let s ← pInt; let e ← pInt; let alt ← pTilde
+      match Gen.alphabets.lookup "NT_STRICT_UNKNOWN".toList with
+      | some al => pure (showV (fun b => s!"{b.1} {b.2}") (mkVariantFull al s e alt))
+      | none => throw "alphabet table"),
+  ("mkfeat", do
+      let st ← pStrand; let ss ← pList pInt; let es ← pList pInt; let q ← pQual
+      pure (showV (fun o => s!"{o.start} {o.endp}") (mkFeature ss es st q))),
+  ("mkgene", do
+      let cs ← pList (pChild true); let q ← pQual
+      pure (showV (fun o => s!"{o.1} {o.2}") (mkColl true cs q))),
+  ("mkfcoll", do
+      let cs ← pList (pChild true); let q ← pQual
+      pure (showV (fun o => s!"{o.1} {o.2}") (mkColl false cs q))),
+  ("mkannot", do
+      let s ← pOptWith intOf; let e ← pOptWith intOf; let cs ← pList (pChild false)
+      pure (showV (fun o => match o with | .empty => "E" | .bounds a b => s!"{a} {b}") (mkAnnot s e cs))),
+  ("mkcodon", do
+      let s ← pTilde
+      pure (showV String.ofList (mkCodon Gen.codonAlphabet s))),
+  ("fromint", do
+      let which ← tok; let v ← pInt
+      match which with
+      | "strand" => pure (showPyR strandSym (GenP.strandOfInt v))
+      | "frame" => pure (showPyR (fun f => toString f.value) (GenP.frameOfInt v))
+      | "phase" => pure (showPyR (fun f => toString f.value) (GenP.phaseOfInt v))
+      | t => throw s!"which? {t}"),
+  ("fromsym", do
+      let s ← pTilde
+      pure (showPyR strandSym (Gen.Strand_from_symbol s))),
+  ("sappend", do
+      let n ← pNat
+      let st1 ← pStrand; let a1 ← pNat; let b1 ← pNat
+      let st2 ← pStrand; let a2 ← pNat; let b2 ← pNat
+      let d ← pBool
+      let P := appendGenome.take n
+      let r : R String := do
+        let x ← pieceOf P st1 a1 b1
+        let y ← pieceOf P st2 a2 b2
+        if d then pure s!"D {(x.data ++ y.data).length} 1"
+        else do
+          let z ← Sq.append P x y
+          match z.par with
+          | some ⟨_, some m⟩ =>
+              let st ← locStrand m
+              let flag := match Sq.extract P ntStrict m with
+                | .ok t => t == z.data
+                | .error _ => false
+              pure s!"L {z.data.length} {strandSym st} {(locBlocks m).length} {showBlocks (locBlocks m)} {if flag then 1 else 0}"
+          | _ => pure s!"N {z.data.length} 1"
+      pure (showR id r)),
+  ("pcons", do
+      let op ← tok
+      let ks ← pList pNat
+      match ks.mapM kindKey with
+      | some keys => pure (showV (fun _ => "wf") (pconsModel (popOf op) keys))
+      | none => throw "kind?"),
   ("mksingle", do
       let s ← pInt; let e ← pInt; let st ← pStrand; let n ← pOptNat
       pure (showV showLocation (mkSingleP s e st n))),
